@@ -40,6 +40,7 @@ var swaps = map[string]struct{ path, name string }{
 const schedPath = "verif/h/rt/vsched"
 
 type stats struct {
+	GlobalResets int `json:"files_with_package_level_state_reset"`
 	Files            int      `json:"files"`
 	ImportSwaps      int      `json:"import_swaps"`
 	GoStmts          int      `json:"go_stmts"`
@@ -123,9 +124,21 @@ func run(root, out, prefix string, hooks bool, exportsDir string, copyMode bool)
 			in.siteBase(base)
 			in.file(f)
 			f.Comments = nil
+			// package-level variables: a generated init registers a function which puts them back to their initial
+			// values, so that every execution of the explorer starts from the state a fresh process has - whatever
+			// package-level state the tree under test keeps (the harness does not have to know the variables by name)
+			reset := globalsReset(p.Fset, f)
+			if reset != "" && !in.needSched {
+				addImport(f, "vsched", schedPath)
+			}
 			var buf bytes.Buffer
 			if err := printer.Fprint(&buf, p.Fset, f); err != nil {
 				return err
+			}
+			if reset != "" {
+				rel, _ := filepath.Rel(root, fn)
+				fmt.Fprintf(&buf, "\nfunc init() {\n\tvsched.RegisterGlobalReset(%q, func() {\n%s\t})\n}\n", rel, reset)
+				st.GlobalResets++
 			}
 			rel, _ := filepath.Rel(root, fn)
 			dst := filepath.Join(out, rel)
@@ -184,6 +197,50 @@ func run(root, out, prefix string, hooks bool, exportsDir string, copyMode bool)
 var siteBaseN int
 
 func (in *inst) siteBase(b int) { siteBaseN = b }
+
+// globalsReset renders the assignments which give the file's package-level variables their initial values again.
+func globalsReset(fset *token.FileSet, f *ast.File) string {
+	var sb strings.Builder
+	render := func(n ast.Node) string {
+		var b bytes.Buffer
+		printer.Fprint(&b, fset, n)
+		return b.String()
+	}
+	for _, d := range f.Decls {
+		gd, ok := d.(*ast.GenDecl)
+		if !ok || gd.Tok != token.VAR {
+			continue
+		}
+		for _, sp := range gd.Specs {
+			vs := sp.(*ast.ValueSpec)
+			var names []string
+			blank := false
+			for _, n := range vs.Names {
+				if n.Name == "_" {
+					blank = true
+				}
+				names = append(names, n.Name)
+			}
+			switch {
+			case blank && len(vs.Names) == 1:
+				// nothing to reset
+			case len(vs.Values) == 0:
+				for _, n := range vs.Names {
+					if n.Name != "_" {
+						fmt.Fprintf(&sb, "\t\t%s = *new(%s)\n", n.Name, render(vs.Type))
+					}
+				}
+			default:
+				var vals []string
+				for _, v := range vs.Values {
+					vals = append(vals, render(v))
+				}
+				fmt.Fprintf(&sb, "\t\t%s = %s\n", strings.Join(names, ", "), strings.Join(vals, ", "))
+			}
+		}
+	}
+	return sb.String()
+}
 
 func (in *inst) site(field string, pos token.Pos) int {
 	p := in.fset.Position(pos)
